@@ -2,6 +2,11 @@
 
 package zzverif
 
+import (
+	"strings"
+	"unicode/utf8"
+)
+
 // A model of the PostgreSQL fragment the renderers can emit: lexer (quoted identifiers with "",
 // string constants with '' under standard_conforming_strings=on, numbers, operators, keywords,
 // placeholders), a precedence-climbing parser following PostgreSQL's table
@@ -322,6 +327,11 @@ func (p *sqParser) primary() *sqNode {
 
 // pgParse parses one confined boolean expression; ok is false for anything else.
 func pgParse(sql string) (*sqNode, int, bool) {
+	// PostgreSQL (server encoding UTF8) refuses query text that is not valid UTF-8 and cannot
+	// carry a NUL byte at all
+	if !utf8.ValidString(sql) || strings.Contains(sql, "\x00") {
+		return nil, 0, false
+	}
 	toks := pgLex(sql)
 	for _, t := range toks {
 		if t.kind == sqBad {
